@@ -374,6 +374,31 @@ deriving Repr
 	if elseList == nil {
 		return "", fmt.Errorf("CheckProposerMessage: `if x.Header.Phase == Propose {...} else {...}` not found")
 	}
+	// which committee each certificate of a leader message is verified against: the one of the certificate's OWN root height
+	var committeeFacts []string
+	ast.Inspect(cpm.Body, func(n ast.Node) bool {
+		is, ok := n.(*ast.IfStmt)
+		if !ok {
+			return true
+		}
+		for _, st := range is.Body.List {
+			if as, ok := st.(*ast.AssignStmt); ok && len(as.Rhs) == 1 && strings.HasPrefix(g.ExprText(as.Rhs[0]), "b.LoadCommittee(") {
+				committeeFacts = append(committeeFacts, fmt.Sprintf("%q", "if "+g.ExprText(is.Cond)+" { "+g.StmtText(as)+" }"))
+			}
+		}
+		return true
+	})
+	fmt.Fprintf(&b, "/-- bft/msg.go CheckProposerMessage: when and with which arguments another committee is loaded (Qc first, HighQc second) -/\ndef src_CheckProposerMessage_committees : List String := [%s]\n", strings.Join(committeeFacts, ", "))
+	var hqCommittee string
+	if hhf := voteF.FindFunc("BFT", "handleHighQCVDFAndEvidence"); hhf != nil {
+		ast.Inspect(hhf.Body, func(n ast.Node) bool {
+			if as, ok := n.(*ast.AssignStmt); ok && len(as.Rhs) == 1 && strings.Contains(g.ExprText(as.Rhs[0]), "LoadCommittee(") {
+				hqCommittee = g.StmtText(as)
+			}
+			return true
+		})
+	}
+	fmt.Fprintf(&b, "/-- bft/vote.go handleHighQCVDFAndEvidence: the committee a reported lock is verified against -/\ndef src_handleHighQC_committee : String := %q\n\n", hqCommittee)
 	// pure helpers over views declared in bft/msg.go that the branch calls
 	helperCalls := map[string]func([]string) (string, error){"bytes.Equal": bytesEq}
 	var helperTxt []string
